@@ -768,3 +768,32 @@ Qed.
 Theorem form_collect_chunking total memory fs1 fs2 : Forall2 same_field fs1 fs2 ->
   form_collect total memory fs1 = form_collect total memory fs2.
 Proof. intro H. apply form_loop_chunking. exact H. Qed.
+
+(* ---- behind Decompress: the extractor sees the decoder's outputs *)
+Fixpoint somes (outs : list (option bytes)) : list bytes :=
+  match outs with [] => [] | Some c :: r => c :: somes r | None :: r => somes r end.
+
+Lemma decoded_items_outs outs :
+  decoded_items (map (fun o => match o with Some c => WOut c | None => WSkip end) outs) = chunks (somes outs).
+Proof. induction outs as [|[c|] r IH]; cbn [map decoded_items somes chunks]; [reflexivity| |exact IH].
+  f_equal. exact IH. Qed.
+
+Lemma concat_somes outs :
+  concat (somes outs) = concat (map (fun o => match o with Some c => c | None => [] end) outs).
+Proof. induction outs as [|[c|] r IH]; cbn [map concat somes app]; [reflexivity| |exact IH].
+  f_equal. exact IH. Qed.
+
+Theorem run_decoded_exact x limit (outs : list (option bytes)) (tail : option bytes) b :
+  let w := {| w_items := map (fun o => match o with Some c => WOut c | None => WSkip end) outs;
+              w_tail := option_map Data tail |} in
+  let delivered := concat (map (fun o => match o with Some c => c | None => [] end) outs)
+                   ++ match tail with Some c => c | None => [] end in
+  fst (run x limit None (decoded w)) = Ok b <-> b = delivered /\ lenN b <= limit.
+Proof.
+  cbv zeta. unfold decoded. cbn [w_items w_tail]. rewrite decoded_items_outs, <- concat_somes.
+  destruct tail as [c|]; cbn [option_map].
+  - replace (chunks (somes outs) ++ [Data c]) with (chunks (somes outs ++ [c]))
+      by (unfold chunks; rewrite map_app; reflexivity).
+    rewrite run_exact, concat_app. cbn [concat]. rewrite app_nil_r. reflexivity.
+  - rewrite !app_nil_r. apply run_exact.
+Qed.
